@@ -394,7 +394,12 @@ def _cosmologies(tier, seed):
             base.append(dict(omega_m=om, H0=rng.uniform(30, 120)))
         else:
             ok = rng.uniform(-0.5, 0.5)
-            base.append(dict(omega_m=om, omega_l=1 - om - ok, omega_k=ok, flat=False, H0=rng.uniform(30, 120)))
+            ol = 1 - om - ok
+            # physical cosmologies only (the statement's domain, the precondition E(z)^2 > 0 of every contract): no
+            # "bounce" models whose E(z)^2 = om (1+z)^3 + ok (1+z)^2 + ol dips to or below zero somewhere in 0 <= z <= 6
+            if min(om * (1 + z) ** 3 + ok * (1 + z) ** 2 + ol for z in [k * 0.01 for k in range(0, 601)]) < 0.05:
+                continue
+            base.append(dict(omega_m=om, omega_l=ol, omega_k=ok, flat=False, H0=rng.uniform(30, 120)))
     return base
 
 
